@@ -84,14 +84,18 @@ def gen_mass_case(rng, idx):
     rated = float(np.round(rng.uniform(300, 5000), 0))
     eng = plants.gen_engine_spec(rng, rated, dual=False)
     n = int(rng.choice([1, 3, 6]))
-    lo, hi = 0.2, 0.95
+    lo, hi = 0.2, 1.1          # engines run up to their 110 % overload point when the curves go that far
     for e in eng.get("emissions", []):
         xs = [p[0] for p in e["points"]]
         lo, hi = max(lo, min(xs)), min(hi, max(xs))
     if lo > hi:
         lo, hi = 0.4, 0.8
+    if hi <= 1.0:
+        hi = min(hi, 0.95)
+    if lo > hi:
+        lo = hi
     return {"idx": idx, "kind": "mass", "engine": eng, "rated": rated, "geared": bool(rng.random() < 0.3),
-            "powers": [float(np.round(rng.uniform(lo, hi) * rated * 0.9, 2)) if rng.random() < 0.85 else 0.0 for _ in range(n)],
+            "powers": [float(np.round(rng.uniform(lo, hi) * rated * (0.9 if hi <= 1.0 else 0.97), 2)) if rng.random() < 0.85 else 0.0 for _ in range(n)],
             "dt": [float(rng.choice([1.0, 60.0, 900.0, 3600.0])) for _ in range(n)]}
 
 
